@@ -31,14 +31,15 @@ class BuildError(Exception):
     pass
 
 
-def build_impl(san=False):
-    """(re)build kernels + libawkward + drivers from /repo's current tree (dependency tracked)"""
+def build_impl(san=False, drivers=('awkdrv',)):
+    """(re)build kernels + libawkward + the named drivers from /repo's current tree (dependency tracked)"""
     os.makedirs(BUILD, exist_ok=True)
     lock = open(os.path.join(BUILD, '.lock-impl-' + ('san' if san else 'std')), 'w')
     fcntl.flock(lock, fcntl.LOCK_EX)
     try:
         t = time.time()
-        r = sh('make -s -C %s/impl -j16 %s REPO=%s VERIF=%s' % (VERIF, 'SAN=1' if san else '', REPO, VERIF))
+        r = sh('make -s -C %s/impl -j16 %s REPO=%s VERIF=%s libs %s' % (VERIF, 'SAN=1' if san else '', REPO, VERIF,
+                                                                      ' '.join('drv-' + d for d in drivers)))
         if r.returncode != 0:
             raise BuildError('implementation build failed:\n' + r.stdout[-4000:])
         log('impl build (%s) ok in %.1fs' % ('san' if san else 'std', time.time() - t))
